@@ -14,12 +14,14 @@ DEMO_PKG=$(cat "$D/demo_pkg" 2>/dev/null || true)
 rundemo() { # prints PASS or FAIL
   if [ -f "$D/demo_test.go" ] && [ -n "$DEMO_PKG" ]; then
     cp "$D/demo_test.go" "/repo/$DEMO_PKG/zz_seed_demo_test.go"
-    if (cd /repo && timeout 120 go test -vet=off -count=1 -run "$(cat "$D/demo_run" 2>/dev/null || echo .)" "./$DEMO_PKG/" >/tmp/seed_demo.log 2>&1); then echo PASS; else echo FAIL; fi
+    if (cd /repo && timeout 300 go test $(cat "$D/demo_flags" 2>/dev/null) -vet=off -count=1 -run "$(cat "$D/demo_run" 2>/dev/null || echo .)" "./$DEMO_PKG/" >/tmp/seed_demo.log 2>&1); then echo PASS; else echo FAIL; fi
     rm -f "/repo/$DEMO_PKG/zz_seed_demo_test.go"
   elif [ -f "$D/demo_main.go" ]; then
     mkdir -p /repo/cmd/zzseeddemo && cp "$D/demo_main.go" /repo/cmd/zzseeddemo/main.go
     if (cd /repo && timeout 120 go run ./cmd/zzseeddemo >/tmp/seed_demo.log 2>&1); then echo PASS; else echo FAIL; fi
     rm -rf /repo/cmd/zzseeddemo
+  elif [ -f "$D/demo.sh" ]; then
+    if (cd /tmp && timeout 300 bash "$D/demo.sh" /repo >/tmp/seed_demo.log 2>&1); then echo PASS; else echo FAIL; fi
   else echo NODEMO; fi
 }
 echo "demo without change: $(rundemo)"
